@@ -31,6 +31,7 @@ PANIC_ITER_METHODS = {"step_by"}
 # --- explicitly total std callees (method names); anything std that is neither in the panic tables nor
 #     here is reported as UNDECIDED by the PANIC rule, never as a violation
 TOTAL_METHODS = {
+    "wrapping_sub", "wrapping_add", "wrapping_mul", "checked_add", "checked_sub", "checked_mul", "saturating_sub", "saturating_add", "is_ascii_digit",
     "len", "get", "get_mut", "parse", "is_char_boundary", "starts_with", "ends_with", "strip_prefix", "strip_suffix",
     "split", "splitn", "split_once", "contains", "contains_key", "ok_or", "ok_or_else", "map", "and_then", "is_none",
     "is_some", "branch", "from_residual", "into", "from", "try_into", "try_from", "ok", "err", "iter", "into_iter",
@@ -116,6 +117,12 @@ class PanicScan:
                             dfs = [(bj, tj) for bj, tj in b.calls() if tj.dest is not None and tj.dest.is_local() and tj.dest.local == ml]
                             if len(dfs) == 1 and dfs[0][1].callee.method == "get" and "NonZero" in ((dfs[0][1].callee.name or "") + (dfs[0][1].callee.def_args or "")) and not [st for _, st in b.stmts() if st.k == "assign" and st.place.is_local() and st.place.local == ml]:
                                 continue
+                        # an accumulation (`acc * 10 + d`) in a loop whose trip count is capped by a length test against a constant before the
+                        # loop: whether the cap keeps the value in range is a question about runtime values - not decided (a loop with NO such cap
+                        # stays a finding: any long enough input overflows)
+                        if src and src[-1].rv["op"].startswith(("Add", "Mul")) and self._capped_loop(b, bi):
+                            undecided.append({"body": b, "pos": (bi, len(blk.stmts)), "construct": "assert:Overflow of an accumulation in a loop whose trip count is capped by a constant (value range not computed)", "line": t.line})
+                            continue
                 elif t.k == "call":
                     n_calls += 1
                     c = t.callee
@@ -143,6 +150,33 @@ class PanicScan:
                     undecided.append({"body": b, "pos": (bi, len(blk.stmts)), "construct": unknown, "line": t.line})
         stats = {"reachable_bodies": len(reach), "calls": n_calls, "asserts": n_asserts, "exempted": exempted}
         return findings, undecided, stats
+
+    def _capped_loop(self, b, bi):
+        lp = b.loop_of(bi)
+        if not lp:
+            return False
+        header = lp[0]
+        lens = set()
+        for _, st in b.stmts():
+            if st.k == "assign" and st.place.is_local() and st.rv["k"] == "un" and st.rv["op"] == "PtrMetadata":
+                lens.add(st.place.local)
+        for _, tj in b.calls():
+            if tj.callee.method == "len" and tj.dest is not None and tj.dest.is_local():
+                lens.add(tj.dest.local)
+        grow = True
+        while grow:
+            grow = False
+            for _, st in b.stmts():
+                if st.k == "assign" and st.place.is_local() and st.place.local not in lens and st.rv["k"] == "use" and st.rv["op"].place is not None and st.rv["op"].place.is_local() and st.rv["op"].place.local in lens:
+                    lens.add(st.place.local)
+                    grow = True
+        for (cbi, _i), st in b.stmts():
+            if st.k == "assign" and st.rv["k"] == "bin" and st.rv["op"] in ("Gt", "Ge", "Lt", "Le") and cbi not in lp[1] and b.dominates(cbi, header):
+                l_, r_ = st.rv["l"], st.rv["r"]
+                for x, y in ((l_, r_), (r_, l_)):
+                    if x.place is not None and x.place.is_local() and x.place.local in lens and y.kind == "const" and y.int_value() is not None:
+                        return True
+        return False
 
     def _exempt(self, b, construct):
         for (frx, crx), reason in self.exemptions.items():
@@ -384,6 +418,8 @@ class Atomic:
                     if len(t.args) > self.key_arg:
                         atoms = pv.of_operand_ctx(body, t.args[self.key_arg], ctx)
                         ps = {a[2] for a in atoms if a[0] == "param" and a[1] == m.id}
+                        # ids read out of the receiver's own storage (`for ancestor in &term.all_parents`) are not caller-supplied ids
+                        ps = {p_ for p_ in ps if not (p_ == 1 and m.arg_names.get(1) == "self")}
                         for p in ps:
                             rec = {"param": p, "top_pos": tp, "body": body, "line": t.line, "callee": c}
                             (lookups if self.is_lookup(c) else unchecked).append(rec)
@@ -1566,6 +1602,8 @@ def hard_truncations(prog, body, allow=()):
         for bi, t in fb.calls():
             if t.callee.method in HARD_TRUNCATIONS and t.callee.method not in allow:
                 da = t.callee.def_args or ""
+                if t.callee.method in ("last", "first") and t.callee.trait != "std::iter::Iterator":
+                    continue  # `slice.last()` looks at one element; only Iterator::last consumes (and drops) the others
                 if t.callee.trait == "std::iter::Iterator" or "Iterator" in da or "Vec" in da or "SmallVec" in da or "slice" in da:
                     out.append((fb, t))
     return out
@@ -1669,6 +1707,15 @@ def check_required_steps(ck, rule, prog, body, steps):
         if not blocks:
             ck.ob(rule, "required-step/%s/%s" % (body.short, label), False, "%s never performs the step `%s`" % (body.short, label), where=body.where())
             continue
+        # `if let Some(first) = iter.next() { .. steps .. }`: like a loop that may run zero times, an iterator may be empty - the `next()` that
+        # guards the steps counts as their site
+        for nbi, nt in body.calls():
+            if nt.callee.method == "next" and nt.callee.trait == "std::iter::Iterator" and nt.target is not None and body.loop_of(nbi) is None:
+                sw = body.blocks[nt.target].term
+                if sw.k == "switch":
+                    some = [tg for v, tg in sw.targets if v == 1]
+                    if some and any(body.edge_dominates((nt.target, some[0]), hb_) for hb_ in list(blocks)):
+                        blocks.add(nbi)
         skip = success_path_avoiding(body, blocks)
         ck.ob(rule, "required-step/%s/%s" % (body.short, label), not skip, "%s %s" % (body.short, ("performs `%s` on every path that succeeds" % label) if not skip else ("can return successfully WITHOUT `%s` (an early return or a guard skips it)" % label)), where=body.where())
 
@@ -2562,6 +2609,15 @@ def error_sites(prog, file_rx=r".*"):
                 uses.append("return")
             us = set(uses)
             kind = "swallow" if us & ERR_SWALLOW else "assert" if us & ERR_ASSERT else "propagate" if us & {"branch", "return", "match"} else "unused" if not us else "other"
+            if kind == "swallow" and (us & ERR_SWALLOW) == {"ok"}:
+                # `x: f(..).ok()` KEPT in a field of a crate struct (a cached conversion whose failure is re-derived where the value is needed) is
+                # not a discarded error - whether the failure resurfaces later is not followed
+                for bj, u in b.calls():
+                    if u.callee.method == "ok" and any(a.place is not None and a.place.local in seen for a in u.args) and u.dest is not None and u.dest.is_local():
+                        dl = u.dest.local
+                        if any(st.k == "assign" and st.rv["k"] == "agg" and st.rv.get("agg") == "adt" and st.rv.get("adt") in prog.adts and any(o.place is not None and o.place.local == dl for o in st.rv["ops"]) for _, st in b.stmts()):
+                            kind = "other"
+                            us = us | {"stored in a struct field"}
             out.append({"body": b, "callee": tg, "kind": kind, "uses": sorted(us), "line": t.line})
     return out
 
